@@ -55,6 +55,10 @@ impl<'a> RefPos<'a> {
         self.text[self.starts[line]..self.ends[line]].encode_utf16().count()
     }
 
+    pub fn is_boundary(&self, offset: usize) -> bool {
+        offset <= self.text.len() && self.text.is_char_boundary(offset)
+    }
+
     /// offset (a char boundary inside the text) -> (line, UTF-16 column)
     pub fn to_pos(&self, offset: usize) -> (usize, usize) {
         let line = self.line_of(offset);
